@@ -35,9 +35,9 @@ PROPS = {
              "to itself, is Spec.apply of the position, mover not in check); make_checked_no_trap; tryUnchecked_eq (apply-and-test agrees "
              "with is_legal_unchecked); make_uci_valid, make_ucistr_iff (UCI value / string accepted iff it spells a legal move); "
              "refusal_restores; backbone: make_shape, valid_make",
-             ["SAN make-likes (san::Move, San<S>) rest on the SAN candidate generators: differential only until C09 is proved",
-              "'semilegal' is the implementation's is_semilegal; its identification with the rules' pseudo-legal set is C06 (differential)",
-              "push through a move chain: C13"],
+             ["SAN make-likes (san::Move, San<S>): proved in Props/C09 (san_make_likes, makeSan_valid, makeSan_no_trap) — listed with C09's evidence",
+              "'semilegal' = the rules' pseudo-legal set: proved in C06 (semilegalGen_eq_pseudo)",
+              "push through a move chain: C13 (proved)"],
              "Lean 4 theorems over all valid boards and all well-formed moves / all byte strings; differential on five move-like inputs × positions ties the model to the code",
              "§6 C02", 0.5),
     "C03": P("proof", "make_refines_apply: for every board with Shape (consistent derived state, rights and en-passant mark backed "
@@ -86,8 +86,15 @@ PROPS = {
              ["that an INDEPENDENT reader interprets the text as the same position is checked differentially (Spec.Fen.read in the driver), not proved"],
              "Lean 4 theorems over all raw boards and all byte strings; differential on generated positions and strings ties the model to the code",
              "§6 C08"),
-    "C09": P("exploration", "none yet", ["san_sound", "san_of_move_standard", "san_roundtrip"],
-             "differential vs Spec.San.write / Spec.San.denotes (declarative spellings)", "§6 C09", 0.6, 1.0),
+    "C09": P("proof", "INPUT side proved for every valid position and every SAN value / byte string: san_input_sound / moveFromSan_sound (a move "
+             "is returned only if it is well-formed, semilegal and legal and agrees with the piece, destination, origin hints, capture mark "
+             "and promotion written); san_input_unique (the returned move is the only legal move that agrees); san_ambiguity + "
+             "san_simple_resolve / san_short_resolve (two different agreeing legal moves ⇒ Ambiguity naming two of them, never a silent "
+             "choice); search_spec; sanCandidates_spec / sanPawnCapture_spec (candidate generators = exactly the legal candidates, no "
+             "duplicates, no panic); san_make_likes (the SAN make-likes are legal steps)",
+             ["OUTPUT side — the text produced is the standard notation (minimal disambiguation among legal moves, capture mark, promotion suffix, castling, + / #), distinct legal moves get distinct texts, text round trip: differential against Spec.San.write / Spec.San.denotes only, not yet a theorem"],
+             "Lean 4 theorems (input side); differential vs Spec.San.write / Spec.San.denotes (declarative spellings) on generated positions and strings ties the model to the code and covers the output side",
+             "§6 C09", 0.6, 1.0),
     "C10": P("proof", "uci_move_roundtrip: in every board with Shape (every validated position) each well-formed semilegal move, written "
              "and read back in that position, is recovered with its kind (castling, double step, en passant, each promotion); "
              "uci_parse_lang: the reader accepts exactly the writer's image; uci_semilegal_iff / uci_legal_iff: the checking readers "
@@ -109,14 +116,14 @@ PROPS = {
               "push_uci_list totality beyond the first token needs 'a legal move keeps both kings' (differential-only)"],
              "Lean 4 theorems over byte-level parser models with explicit trap results (loop invariant for parse_cells, case analysis "
              "for the SAN/UCI grammars, king existence from the validation theorems)", "§6 C12", 1.0),
-    "C13": P("proof", "ops_inv: after ANY sequence of pushes (moves, UCI values, UCI strings, UCI lists; legal or not), pops and outcome "
+    "C13": P("proof", "ops_inv: after ANY sequence of pushes (moves, UCI values, UCI strings, UCI lists, SAN values, SAN strings; legal or not), pops and outcome "
              "operations the chain invariant holds (valid positions throughout, stack = a legal game from the unchanged start with the "
              "undo records make returned, board = its replay, repetition table = hash counts of the game so far); chain_faithful / "
              "chain_refines_rules (board = replay of the recorded moves, in the model and as Spec.replay); push_ok (an accepted push "
              "appends exactly that move; start and outcome untouched); push_refused; pop_spec' (pop undoes exactly the latest accepted "
              "push, restores the previous position exactly, clears the outcome, lowers the repetition count, cannot panic); "
              "pushUciList_go (accepted prefix); beq_iff (equality = start, move list, outcome)",
-             ["SAN pushes (san::Move, San<S>): differential only until san_sound (C09) gives MakeLikeOk for them"],
+             [],
              "Lean 4 theorems by induction over operation sequences; differential on generated chain scripts ties the model to the code",
              "§6 C13"),
     "C14": P("proof", "over the C13 chain invariant (hs = every position of the game so far): calc_spec (the chain's calculation = the "
